@@ -179,7 +179,9 @@ func (bs *baseServer) Verify(ctx *types.HttpContext, upgrade bool) (*types.CodeM
 			server_log.Debug(`unknown sid "%s"`, sid)
 			return UNKNOWN_SID, map[string]any{"sid": sid}
 		}
-		if previousTransport := scoket.Transport().Name(); !upgrade && previousTransport != transport {
+		// a plain HTTP request is served by the session's polling transport only:
+		// on any other transport nobody would ever answer it
+		if previousTransport := scoket.Transport().Name(); !upgrade && (previousTransport != transport || scoket.Transport().HandlesUpgrades()) {
 			server_log.Debug("bad request: unexpected transport without upgrade")
 			return BAD_REQUEST, map[string]any{"name": "TRANSPORT_MISMATCH", "transport": transport, "previousTransport": previousTransport}
 		}
